@@ -819,7 +819,23 @@ impl<'a, R: RoleType, T: IsPacketId> Gen<'a, R, T> {
                 let b = w_publish(v, pw, 0, false, false, b"topic/long/name", 0, &[], &[0u8; 150]);
                 self.recv(b);
             }
-            _ => self.recv(w_connack(v, true, 0, &[P::U16(33, 0)])),
+            _ => {
+                // protocol violations of the peer on an established connection: a second CONNACK
+                // (accepted / refused, session present or not), a second CONNECT
+                if self.status() == "C" && self.rng.chance(3, 4) {
+                    if self.rng.chance(2, 3) {
+                        let rc = *self.rng.pick(&[0u8, 0, if v == 5 { 0x80 } else { 2 }, if v == 5 { 0x87 } else { 5 }]);
+                        let sp = rc == 0 && self.rng.chance(1, 2);
+                        let ps: Vec<P> = if v == 5 && self.rng.chance(1, 2) { vec![P::U16(33, 5)] } else { vec![] };
+                        self.recv(w_connack(v, sp, rc, &ps));
+                    } else {
+                        let clean = self.rng.chance(1, 2);
+                        self.recv(w_connect(v, clean, 10, b"c2", &[]));
+                    }
+                } else {
+                    self.recv(w_connack(v, true, 0, &[P::U16(33, 0)]))
+                }
+            }
         }
     }
 
@@ -1217,6 +1233,10 @@ fn walk<R: RoleType, T: IsPacketId>(role: &'static str, ver: u8, steps: usize, r
             g.handshake();
             if g.status() == "C" {
                 g.op(format!("recv {}", hex(&w_publish(v, pw, 2, true, false, b"b", 1, &[], b"in"))));
+            }
+            if g.status() == "C" && g.acts_as_client() && g.rng.chance(1, 2) {
+                // the server repeats its CONNACK on the established connection (stored packets exist)
+                g.op(format!("recv {}", hex(&w_connack(v, true, 0, &[]))));
             }
         }
         g.inflight.clear();
